@@ -40,19 +40,23 @@ struct Ctx
 };
 
 static const long long DEN = 4;
+// The specification's distinguished value NegZero (PersistFmt.tla): IEEE -0, EQUAL to 0 in value but another bit
+// pattern.  Binary modes are bit-identical (a stored -0 stays -0, a stored +0 stays +0); text modes are compared by value.
+static const long long NEGZERO = 999999937;
+template<class DT> DT val_of(long long num) { return num == NEGZERO ? DT(-0.0) : DT(double(num) / double(DEN)); }
 
 // ---- builders (values = numerator / den) ------------------------------------------------------------
 template<class DT, class IT> DenseVector<DT, IT> dvec(const IVec& num)
 {
   DenseVector<DT, IT> r(Index(num.size()));
-  for(std::size_t k = 0; k < num.size(); ++k) r(Index(k), DT(double(num[k]) / double(DEN)));
+  for(std::size_t k = 0; k < num.size(); ++k) r(Index(k), val_of<DT>(num[k]));
   return r;
 }
 template<class DT, class IT, int BS> DenseVectorBlocked<DT, IT, BS> dbvec(const IVec& num)
 {
   DenseVectorBlocked<DT, IT, BS> r(Index(num.size() / BS));
   DT* e = r.template elements<Perspective::pod>();
-  for(std::size_t k = 0; k < num.size(); ++k) e[k] = DT(double(num[k]) / double(DEN));
+  for(std::size_t k = 0; k < num.size(); ++k) e[k] = val_of<DT>(num[k]);
   return r;
 }
 
@@ -101,7 +105,7 @@ template<class DT, class IT> struct Ops<DenseMatrix<DT, IT>>
   {
     IVec va = c["rep"]["va"].ints(); Index m = Index(c["m"].as_int()), n = Index(c["n"].as_int());
     CT a(m, n);
-    for(Index i = 0; i < m; ++i) for(Index j = 0; j < n; ++j) a(i, j, DT(double(va[i * n + j]) / double(DEN)));
+    for(Index i = 0; i < m; ++i) for(Index j = 0; j < n; ++j) a(i, j, val_of<DT>(va[i * n + j]));
     return a;
   }
 };
@@ -173,8 +177,10 @@ template<class DT, class IT> struct Ops<SparseMatrixBanded<DT, IT>>
 };
 
 // ---- container state as the specification's Arrays record -------------------------------------------------
+// bit-level view: -0 is reported as the specification's NegZero (used for the raw arrays)
 static long long to_num(double x, bool& exact)
 {
+  if(x == 0.0 && std::signbit(x)) return NEGZERO;
   double t = x * double(DEN); long long q = (long long)std::llround(t);
   if(double(q) != t || !(std::fabs(t) < 1e15)) { exact = false; return 987654321; }
   return q;
@@ -190,6 +196,8 @@ template<class CT> vj::Value state_of(const CT& c, bool& exact)
   r["el"] = el; r["ix"] = ix; r["si"] = si;
   return r;
 }
+// value-level view (text round trips): +0 and -0 are the same value
+static long long to_val(double x, bool& exact) { return x == 0.0 ? 0ll : to_num(x, exact); }
 static std::string js(const vj::Value& v) { std::string s = vj::dump(v); if(s.size() > 400) s = s.substr(0, 400) + "..."; return s; }
 
 // ---- comparison of a real byte stream with the specification's binary file -------------------------------
@@ -215,7 +223,9 @@ static bool check_bin(Ctx& k, const vj::Value& f, const char* data, std::size_t 
     {
       double x;
       if(sdt == 8) { double d; std::memcpy(&d, data + off + 8 * t, 8); x = d; } else { float d; std::memcpy(&d, data + off + 4 * t, 4); x = double(d); }
-      if(x * double(DEN) != double(e[t])) return k.fail(tag + ": element array " + std::to_string(a) + "[" + std::to_string(t) + "] at byte " + std::to_string(off + std::size_t(sdt) * t) + " is " + std::to_string(x) + " expected " + std::to_string(double(e[t]) / double(DEN)));
+      // bit-identical: also the sign of a stored zero
+      const bool good = (e[t] == NEGZERO) ? (x == 0.0 && std::signbit(x)) : (x * double(DEN) == double(e[t]) && !(x == 0.0 && std::signbit(x)));
+      if(!good) return k.fail(tag + ": element array " + std::to_string(a) + "[" + std::to_string(t) + "] at byte " + std::to_string(off + std::size_t(sdt) * t) + " is " + std::to_string(x) + " expected " + (e[t] == NEGZERO ? std::string("-0") : std::to_string(double(e[t]) / double(DEN))));
     }
   }
   for(std::size_t a = 0; a < f["ix"].size(); ++a)
@@ -258,7 +268,8 @@ static bool check_text(Ctx& k, const vj::Value& f, const std::string& text, cons
     for(std::size_t j = 0; j < ex.size(); ++j)
     {
       char* end = nullptr; double v = std::strtod(tok[ei.size() + j].c_str(), &end);
-      if(*end != 0 || v * double(DEN) != double(ex[j])) return k.fail(tag + ": line " + std::to_string(p + q) + " '" + lines[p + q] + "': value token expected " + std::to_string(double(ex[j]) / double(DEN)));
+      // (a token for a stored -0 must be a zero; its sign is not part of a text round trip)
+      if(*end != 0 || tok[ei.size() + j].empty() || v * double(DEN) != double(ex[j] == NEGZERO ? 0 : ex[j])) return k.fail(tag + ": line " + std::to_string(p + q) + " '" + lines[p + q] + "': value token expected " + std::to_string(double(ex[j]) / double(DEN)));
     }
   }
   return true;
@@ -266,7 +277,7 @@ static bool check_text(Ctx& k, const vj::Value& f, const std::string& text, cons
 
 static FileMode file_mode(const std::string& m)
 {
-  if(m == "exp") return FileMode::fm_exp; if(m == "mtx") return FileMode::fm_mtx; if(m == "dv") return FileMode::fm_dv;
+  if(m == "exp") return FileMode::fm_exp; if(m == "mtx" || m == "mtxsym") return FileMode::fm_mtx; if(m == "dv") return FileMode::fm_dv;
   if(m == "dvb") return FileMode::fm_dvb; if(m == "sv") return FileMode::fm_sv; if(m == "svb") return FileMode::fm_svb;
   if(m == "dm") return FileMode::fm_dm; if(m == "csr") return FileMode::fm_csr; if(m == "bcsr") return FileMode::fm_bcsr;
   if(m == "cscr") return FileMode::fm_cscr; if(m == "bm") return FileMode::fm_bm; if(m == "binary") return FileMode::fm_binary;
@@ -275,27 +286,31 @@ static FileMode file_mode(const std::string& m)
 
 // ---- abstract views after a text round trip (the specification's AbsView record) --------------------------
 template<class DT, class IT> vj::Value view_of(const DenseVector<DT, IT>& v, bool& ex)
-{ vj::Value r = vj::Value::object(); r["m"] = vj::Value((long long)v.size()); vj::Value a = vj::Value::array(); for(Index i = 0; i < v.size(); ++i) a.push(vj::Value(to_num(double(v(i)), ex))); r["va"] = a; return r; }
+{ vj::Value r = vj::Value::object(); r["m"] = vj::Value((long long)v.size()); vj::Value a = vj::Value::array(); for(Index i = 0; i < v.size(); ++i) a.push(vj::Value(to_val(double(v(i)), ex))); r["va"] = a; return r; }
 template<class DT, class IT, int BS> vj::Value view_of(const DenseVectorBlocked<DT, IT, BS>& v, bool& ex)
 {
   vj::Value r = vj::Value::object(); r["m"] = vj::Value((long long)v.size()); vj::Value a = vj::Value::array();
   const DT* e = v.template elements<Perspective::pod>(); Index n = v.template size<Perspective::pod>();
   // the pod size must be consistent with the element array actually held
   Index have = v.get_elements_size().empty() ? Index(0) : v.get_elements_size()[0];
-  for(Index i = 0; i < have; ++i) a.push(vj::Value(to_num(double(e[i]), ex)));
+  for(Index i = 0; i < have; ++i) a.push(vj::Value(to_val(double(e[i]), ex)));
   if(have != n) ex = false;
   r["va"] = a; return r;
 }
 template<class DT, class IT> vj::Value view_of(const SparseVector<DT, IT>& v, bool& ex)
 {
   vj::Value r = vj::Value::object(); r["m"] = vj::Value((long long)v.size()); vj::Value a = vj::Value::array(), x = vj::Value::array();
-  for(Index i = 0; i < v.used_elements(); ++i) { x.push(vj::Value((long long)v.indices()[i])); a.push(vj::Value(to_num(double(v.elements()[i]), ex))); }
+  // the stored index set is part of the state: used_elements() and the raw arrays, never operator()
+  const Index have = v.get_elements_size().empty() ? Index(0) : v.get_elements_size()[0], havei = v.get_indices_size().empty() ? Index(0) : v.get_indices_size()[0];
+  if(have < v.used_elements() || havei < v.used_elements()) { ex = false; r["note"] = vj::Value(std::string("used_elements exceeds the arrays held")); }
+  for(Index i = 0; i < v.used_elements() && i < have && i < havei; ++i) { x.push(vj::Value((long long)v.indices()[i])); a.push(vj::Value(to_val(double(v.elements()[i]), ex))); }
+  r["used"] = vj::Value((long long)v.used_elements());
   r["idx"] = x; r["va"] = a; return r;
 }
 template<class DT, class IT> vj::Value view_of(const DenseMatrix<DT, IT>& v, bool& ex)
 {
   vj::Value r = vj::Value::object(); r["m"] = vj::Value((long long)v.rows()); r["n"] = vj::Value((long long)v.columns()); vj::Value a = vj::Value::array();
-  for(Index i = 0; i < v.rows(); ++i) for(Index j = 0; j < v.columns(); ++j) a.push(vj::Value(to_num(double(v(i, j)), ex)));
+  for(Index i = 0; i < v.rows(); ++i) for(Index j = 0; j < v.columns(); ++j) a.push(vj::Value(to_val(double(v(i, j)), ex)));
   r["va"] = a; return r;
 }
 template<class DT, class IT> vj::Value view_of(const SparseMatrixCSR<DT, IT>& v, bool& ex)
@@ -304,11 +319,29 @@ template<class DT, class IT> vj::Value view_of(const SparseMatrixCSR<DT, IT>& v,
   vj::Value rep = vj::Value::object(), rp = vj::Value::array(), ci = vj::Value::array(), va = vj::Value::array();
   if(v.row_ptr() != nullptr) for(Index i = 0; i <= v.rows(); ++i) rp.push(vj::Value((long long)v.row_ptr()[i]));
   else for(Index i = 0; i <= v.rows(); ++i) rp.push(vj::Value(0ll));      // a container without arrays represents the zero matrix
-  for(Index i = 0; i < v.used_elements(); ++i) { ci.push(vj::Value((long long)v.col_ind()[i])); va.push(vj::Value(to_num(double(v.val()[i]), ex))); }
+  for(Index i = 0; i < v.used_elements(); ++i) { ci.push(vj::Value((long long)v.col_ind()[i])); va.push(vj::Value(to_val(double(v.val()[i]), ex))); }
+  r["used"] = vj::Value((long long)v.used_elements());
   rep["rp"] = rp; rep["ci"] = ci; rep["va"] = va; r["rep"] = rep; return r;
 }
 
 struct Stream { std::string bytes; };
+
+// write_out(mode, stream); mode "mtxsym" = the symmetric MatrixMarket variant write_out(fm_mtx, stream, true) of SparseMatrixCSR
+template<class CT> struct TextWriter
+{
+  static void write(const CT& a, const std::string& mode, std::ostream& os)
+  {
+    if(mode == "mtxsym") throw std::runtime_error("symmetric MatrixMarket output exists for SparseMatrixCSR only");
+    a.write_out(file_mode(mode), os);
+  }
+};
+template<class DT, class IT> struct TextWriter<SparseMatrixCSR<DT, IT>>
+{
+  static void write(const SparseMatrixCSR<DT, IT>& a, const std::string& mode, std::ostream& os)
+  {
+    if(mode == "mtxsym") a.write_out(FileMode::fm_mtx, os, true); else a.write_out(file_mode(mode), os);
+  }
+};
 
 // one write / read behaviour for container type CT; RT = type reading a text file back (CSR for BCSR matrix market)
 template<class CT, class RT, class DT2, class IT2>
@@ -320,7 +353,7 @@ bool run_io(Ctx& k, const std::string& tag)
   if(!ex || pre != c["arrays"]) return k.pre(tag + ": container state " + js(pre) + " is not the state the specification assumes " + js(c["arrays"]));
   std::string bytes;
   if(mode == "ser") { std::vector<char> v = a.template serialize<DT2, IT2>(); bytes.assign(v.data(), v.size()); }
-  else { std::stringstream ss; a.write_out(file_mode(mode), ss); bytes = ss.str(); }
+  else { std::stringstream ss; TextWriter<CT>::write(a, mode, ss); bytes = ss.str(); }
   // the writer must not modify the container
   { bool e2 = true; if(state_of(a, e2) != pre) return k.fail(tag + ": writing modified the container"); }
   if(f["fmt"].as_str() == "bin")
